@@ -123,6 +123,9 @@ def _triplet(cls, stable):
         isdel = delayed and dconn
         c.ensure("monitor_names", sorted(table) == sorted(["spike_post", "spike_pre", "trace_post_fast", "trace_post_slow", "trace_pre_fast", "trace_pre_slow"]))
         common_clauses(c, table, dt, "synapse.spike" if isdel else "connection.synspike")
+        tcls = "CumulativeTraceReducer" if mode == "cumulative" else "NearestTraceReducer"
+        c.ensure("trace_reducer_class_by_mode", all(table[n]["cls"] == tcls for n in ("trace_post_fast", "trace_post_slow", "trace_pre_fast", "trace_pre_slow")))
+        c.ensure("spike_monitors_passthrough", table["spike_post"]["cls"] == "PassthroughReducer" and table["spike_pre"]["cls"] == "PassthroughReducer")
         z = {k: v.z for k, v in f.items()}
         g = lambda n: table[n]["red"].fields  # noqa: E731
         if not stable:
@@ -153,6 +156,9 @@ def mstdpet_wiring(c):
     c.ensure("monitor_names", sorted(table) == sorted(["spike_post", "spike_pre", "trace_post", "trace_pre", "elig_post", "elig_pre"]))
     base = {n: m for n, m in table.items() if not n.startswith("elig")}
     common_clauses(c, base, dt, "connection.synspike")
+    tcls = "CumulativeTraceReducer" if mode == "cumulative" else "NearestTraceReducer"
+    c.ensure("trace_reducer_class_by_mode", table["trace_post"]["cls"] == tcls and table["trace_pre"]["cls"] == tcls)
+    c.ensure("spike_monitors_passthrough", table["spike_post"]["cls"] == "PassthroughReducer" and table["spike_pre"]["cls"] == "PassthroughReducer")
     tp, tq = table["trace_post"]["red"], table["trace_pre"]["red"]
     c.ensure("trace_amplitudes_and_taus", z3.And(num(tp.fields["amplitude"]) == zabs(lr_pre.z), num(tp.fields["time_constant"]) == tc_post.z, num(tq.fields["amplitude"]) == zabs(lr_post.z), num(tq.fields["time_constant"]) == tc_pre.z))
     # eligibility traces: z_post integrates (presynaptic trace x postsynaptic spike), z_pre (postsynaptic trace x presynaptic spike)
@@ -297,6 +303,7 @@ for _t in TRAINER_CTORS:
     _trainer_defaults(_t)
 
 MUTANTS = [
+    dict(file=T3, func="MSTDPET.register_cell", old='                reducer=state.tracecls(\n                    cell.connection.dt,\n                    state.tc_pre,', new='                reducer=CumulativeTraceReducer(\n                    cell.connection.dt,\n                    state.tc_pre,', contracts=["MSTDPET.register_cell"], name="seed C08e: presynaptic trace ignores the configured trace mode"),
     dict(file=KS, func="DelayAdjustedKernelSTDP.__init__", old="        self.batchreduce = batch_reduction if batch_reduction else torch.mean", new="        self.batchreduce = batch_reduction if batch_reduction else torch.sum", contracts=["DelayAdjustedKernelSTDP.defaults"], name="seed C18b: default batch reduction sum instead of the documented mean"),
     dict(file=D2, func="DelayAdjustedSTDPD.__init__", old="        self.lr_neg = float(lr_neg)", new="        self.lr_neg = float(lr_pos)", contracts=["DelayAdjustedSTDPD.defaults"]),
     dict(file=D2, func="DelayAdjustedSTDP.register_cell", old='            "spike_pre",\n            "synapse.spike",', new='            "spike_pre",\n            "connection.synspike",', contracts=["DelayAdjustedSTDP.register_cell"], name="delay-adjusted rule fed with already delayed spikes (delay counted twice)"),
